@@ -1,6 +1,7 @@
 package rules
 
 import (
+	"sort"
 	"fmt"
 	"go/types"
 	"strings"
@@ -166,6 +167,8 @@ func C02(p *an.Prog, r *an.Report) {
 
 	// count limits as guard regions: 1..16 entries, <=16 leases/keys
 	c02Counts(p, r)
+	c02SigTypeSource(p, r, "C02.L5")
+	c11Threshold(p, r) // L6 (same rule as C11.M5): every well-formed final pair, down to 4 bytes, is read
 
 	// L3
 	ns := mappingSiteRule(p, r, "C02.L3")
@@ -191,4 +194,75 @@ func c02Counts(p *an.Prog, r *an.Report) {
 		checkRegion(p, r, "C02.L2", g.fn+"/count", fn, selLenOf(fn.Params[0]), nonneg, nonneg.Minus(g.accept), g.what, nil)
 	}
 	_ = ssa.Value(nil)
+}
+
+
+// c02SigTypeSource (L5): a LeaseSet2 / MetaLeaseSet / EncryptedLeaseSet ends with a signature whose
+// type — and hence length — is the offline signature's *transient* signing type when offline keys
+// are present, otherwise the destination's (blinded key's) type. In every parser and constructor of
+// these structures, the type operand handed to the signature package must therefore be able to
+// come from OfflineSignature.sigtype and never from OfflineSignature.destinationSigType.
+func c02SigTypeSource(p *an.Prog, r *an.Report, rule string) {
+	roots := []string{
+		"lease_set2.ReadLeaseSet2", "meta_leaseset.ReadMetaLeaseSet", "encrypted_leaseset.ReadEncryptedLeaseSet",
+		"lease_set2.NewLeaseSet2", "encrypted_leaseset.NewEncryptedLeaseSet",
+	}
+	isSigCtor := func(c ssa.CallInstruction) bool {
+		callee := c.Common().StaticCallee()
+		if callee == nil || !strings.HasSuffix(an.FnPkgPath(callee), "/signature") {
+			return false
+		}
+		switch callee.Name() {
+		case "ReadSignature", "NewSignature", "NewSignatureFromBytes":
+			return true
+		}
+		return false
+	}
+	n := 0
+	for _, name := range roots {
+		fn := p.Func(name)
+		if fn == nil {
+			r.Fail(rule+": anchor %s not found", name)
+			continue
+		}
+		chains := callChains(p, fn, isSigCtor, func(f *ssa.Function) bool {
+			// stay inside the structure's own package
+			return an.FnPkgPath(f) != an.FnPkgPath(fn)
+		}, 8)
+		for ci, ch := range chains {
+			site := ch[len(ch)-1]
+			args := site.Common().Args
+			if len(args) < 2 {
+				continue
+			}
+			n++
+			leaves := leavesAt(p, fn, ch, args[1])
+			var paths []string
+			transient, destType := false, false
+			for _, l := range leaves {
+				desc := l.String()
+				via := strings.Join(l.Via, " > ")
+				paths = append(paths, desc+" via ["+via+"]")
+				if strings.HasSuffix(l.Path, ".sigtype") || strings.Contains(via, "OfflineSignature).TransientSigType") {
+					transient = true
+				}
+				if strings.HasSuffix(l.Path, ".destinationSigType") || strings.Contains(via, "OfflineSignature).DestinationSigType") {
+					destType = true
+				}
+			}
+			sort.Strings(paths)
+			var bad []string
+			if destType {
+				bad = append(bad, "the signature type can come from OfflineSignature.destinationSigType (the type of the key that signed the offline block, not of the key that signs the structure)")
+			}
+			if !transient {
+				bad = append(bad, "the signature type never comes from the offline signature's transient key type")
+			}
+			r.Check(len(bad) == 0, rule, fmt.Sprintf("%s/signature-type#%d", fn.Name(), ci+1), p.Pos(site.Pos()),
+				"with offline keys the trailing signature is typed (and sized) by the transient key type", append(bad, "origins of the type operand: "+strings.Join(paths, ", "))...)
+		}
+	}
+	if n < 4 {
+		r.Fail(rule+": only %d signature construction sites found in the offline-capable structures (expected at least 4)", n)
+	}
 }
